@@ -86,7 +86,7 @@ static struct wkslot WK[NWK];
 /* profile */
 static int nfd = 2, ntm = 2, ntk = 2, nev = 1, nraw = 0, nsig = 0, nwk = 0;
 static int acts_per_cb = 2, setup_acts = 3, horizon = 10;
-static unsigned long opmask = ~0UL;
+static unsigned long opmask = ~0UL & ~(1UL << 29);   /* all classes except the opt-in ones (OPT_IN_OPS, see below) */
 static int fault_eintr_wait, fault_eintr_io, fault_emfile, fault_sc;
 static const char *rules;
 static int use_hash;
@@ -141,15 +141,17 @@ enum {
 	OP_FD_FILL, OP_FD_UNFILL, OP_FD_PCLOSE, OP_FD_PSHUT,
 	OP_TM_REG, OP_TM_UNREG, OP_TK_REG, OP_TK_UNREG,
 	OP_EV_REG, OP_EV_UNREG, OP_EV_POST, OP_RAW_REG, OP_RAW_UNREG, OP_RAW_POST,
-	OP_SIG_REG, OP_SIG_UNREG, OP_SIG_RAISE, OP_QUIT, OP_TIMEPASS, OP_WK_SUBMIT, OP_EV_REGFAIL, NOP
+	OP_SIG_REG, OP_SIG_UNREG, OP_SIG_RAISE, OP_QUIT, OP_TIMEPASS, OP_WK_SUBMIT, OP_EV_REGFAIL, OP_FD_COOKIE, NOP
 };
 static const char *opnm[NOP] = { "leave", "fdreg", "fdtry", "fdtrybad", "fdunreg", "fdseth", "feed", "drain",
 	"fill", "unfill", "pclose", "pshut", "tmreg", "tmunreg", "tkreg", "tkunreg", "evreg", "evunreg", "evpost",
-	"rawreg", "rawunreg", "rawpost", "sigreg", "sigunreg", "raise", "quit", "timepass", "wksubmit", "evregfail" };
+	"rawreg", "rawunreg", "rawpost", "sigreg", "sigunreg", "raise", "quit", "timepass", "wksubmit", "evregfail", "fdcookie" };
+/* classes added after round 4 are opt-in (named in ops=): the runs that use the full alphabet keep their meaning */
+#define OPT_IN_OPS (1UL << OP_FD_COOKIE)
 struct act { int op, a, b, c; };
 
 #define NTMCLASS 6
-static const char *tmclass[12] = { "zero", "past", "now", "+1ns", "+10ms", "far", "+20ms", "+30ms", "+40ms", "+50ms", "+60ms", "+70ms" };
+static const char *tmclass[13] = { "zero", "past", "now", "+1ns", "+10ms", "far", "+20ms", "+30ms", "+40ms", "+50ms", "+60ms", "+70ms", "+30d" };
 #define NFDPRESET 6     /* handler presets at registration */
 static const int fdpreset[NFDPRESET][3] = { { 1, 0, 0 }, { 0, 0, 0 }, { 1, 1, 1 }, { 0, 1, 0 }, { 0, 0, 1 }, { 1, 1, 0 } };
 
@@ -237,6 +239,8 @@ static int build_menu(struct act *m, int max, int stim)
 			} else {
 				if (enabled(OP_FD_UNREG))
 					ADD(OP_FD_UNREG, i, 0, 0);
+				if (enabled(OP_FD_COOKIE))
+					ADD(OP_FD_COOKIE, i, 0, 0);
 				if (enabled(OP_FD_SETH))
 					for (b = 0; b < 3; b++)
 						for (v = 0; v < 3; v++)
@@ -387,6 +391,7 @@ static struct timespec tm_expiry(int cls)
 	case 3: t.tv_nsec += 1; break;
 	case 4: t.tv_nsec += 10000000; break;
 	case 5: t.tv_sec += 100; break;
+	case 12: t.tv_sec += 30L * 86400; break;        /* seeds only: beyond 2^31 ms */
 	default: t.tv_nsec += 10000000L * (cls - 4); break;     /* seeds only: +20 ms, +30 ms, ... */
 	}
 	if (t.tv_nsec >= 1000000000L) { t.tv_sec++; t.tv_nsec -= 1000000000L; }
@@ -453,6 +458,7 @@ static void perform(const struct act *a)
 			iv_fd_register(f->p);
 		} else {
 			int objs_before = iv_get_state()->numobjs;
+			int pollslots_before = method_idx >= 2 ? iv_get_state()->u.poll.num_regd_fds : 0;
 			in_try = 1;
 			ret = iv_fd_register_try(f->p);
 			in_try = 0;
@@ -490,6 +496,9 @@ static void perform(const struct act *a)
 						FAIL("failed-register-side-effect", "iv_fd_registered() true after failed iv_fd_register_try");
 					if (iv_get_state()->numobjs != objs_before)
 						FAIL("failed-register-side-effect", "loop object count changed by a failed iv_fd_register_try");
+					if (method_idx >= 2 && iv_get_state()->u.poll.num_regd_fds != pollslots_before)
+						FAIL("failed-register-side-effect", "a failed iv_fd_register_try left %d more slot(s) in the poll table",
+						     iv_get_state()->u.poll.num_regd_fds - pollslots_before);
 					fd_reuse[a->a] = f->p;
 					f->p = NULL;
 					memset(f->hv, 0, sizeof(f->hv));
@@ -529,6 +538,13 @@ static void perform(const struct act *a)
 		if (a->b == B_IN) iv_fd_set_handler_in(f->p, fd_handlers[B_IN][a->c]);
 		if (a->b == B_OUT) iv_fd_set_handler_out(f->p, fd_handlers[B_OUT][a->c]);
 		if (a->b == B_ERR) iv_fd_set_handler_err(f->p, fd_handlers[B_ERR][a->c]);
+		break;
+	}
+	case OP_FD_COOKIE: {
+		/* iv_fd(3): the cookie "can be modified directly by the application at any time" */
+		struct fdslot *f = &F[a->a];
+		f->gen++;
+		f->p->cookie = new_cookie(KD_FD, a->a, f->gen);
 		break;
 	}
 	case OP_FD_FEED:
@@ -976,6 +992,13 @@ static void tk_cb(void *_ck)
 		FAIL("stale-callback", "task %d (generation %d) ran although it was unregistered or already ran", ck->slot, ck->gen);
 	if (iv_task_registered(k->p))
 		FAIL("oneshot-registered", "task %d still reported registered on entry to its handler", ck->slot);
+	if (tasks_ran_since_wait[ck->slot]) {
+		/* the same observation from the point of view of what is kept waiting by the task chain */
+		int j;
+		for (j = 0; j < NRAW; j++)
+			if (RW[j].reg && RW[j].pending)
+				FAIL("raw-starved", "task slot %d runs again without a kernel poll in between while a post to raw event %d is waiting", ck->slot, j);
+	}
 	if (tasks_ran_since_wait[ck->slot])
 		FAIL("task-same-round", "task slot %d ran twice without a kernel poll in between (re-registration by a task that already ran must be deferred)", ck->slot);
 	tasks_ran_since_wait[ck->slot] = 1;
@@ -1416,6 +1439,7 @@ static const struct seed seeds[] = {
 	/* 35 */ { "fd0-all-fed,raw0-posted,fd1-in-fed", 0, { A(OP_FD_REG, 0, 2, 0), A(OP_FD_FEED, 0, 0, 0), A(OP_RAW_REG, 0, 0, 0), A(OP_RAW_POST, 0, 0, 0), A(OP_FD_REG, 1, 0, 0), A(OP_FD_FEED, 1, 0, 0), END } },
 	/* 36 */ { "chatty-fd0(12),timer+10ms,task-registered-at-iteration-7", 12, { A(OP_FD_REG, 0, 0, 0), A(OP_FD_FEED, 0, 0, 0), A(OP_TM_REG, 0, 4, 0), END }, 7, A(OP_TK_REG, 0, 0, 0) },
 	/* 37 */ { "chatty-fd0(9),timer-far,two-events-registered,task-at-iteration-9", 9, { A(OP_FD_REG, 0, 0, 0), A(OP_FD_FEED, 0, 0, 0), A(OP_TM_REG, 0, 5, 0), A(OP_EV_REG, 0, 0, 0), A(OP_EV_REG, 1, 0, 0), END }, 9, A(OP_TK_REG, 0, 0, 0) },
+	/* 38 */ { "timer+30d,fd0-idle", 0, { A(OP_TM_REG, 0, 12, 0), A(OP_FD_REG, 0, 0, 0), END } },
 };
 #define NSEEDS ((int)(sizeof(seeds) / sizeof(seeds[0])))
 
@@ -1586,6 +1610,10 @@ next_cycle:
 	script_act = sd->script;
 	script_done = 0;
 	autotask_left = mc_arg_int("autotask", 0);
+	if (mc_arg_int("epoch0", 0)) {
+		/* start from a loop that has already gone round many times (the per-loop round counter is internal state) */
+		iv_get_state()->task_epoch = (uint32_t)strtoul(mc_arg("epoch0", "0"), NULL, 10);
+	}
 	reenter_left = mc_arg_int("reenter", 1);
 	for (i = 0; i < setup_acts; i++) {
 		int n = build_menu(menu, 128, 0);
